@@ -62,7 +62,8 @@ Definition prepare (e : eval) (optimize : bool) : prep * eval :=
       | CompNeed => (PrepNeed, e)
       | CompFuel => (PrepFuel, e)
       | CompOk pc =>
-          let env1 := if optimize then env_set (eenv e) optimize_var (VBool true) else eenv e in
+          (* NoOptimize also removes the switch an earlier Prepare may have left in the variables *)
+          let env1 := if optimize then env_set (eenv e) optimize_var (VBool true) else env_unset (eenv e) optimize_var in
           let do_opt := match env_get env1 optimize_var with Some _ => true | None => false end in
           match (if do_opt then optimize_program pc else Some pc) with
           | None => (PrepNeed, e)
